@@ -213,7 +213,8 @@ class Ed25519Key(PKey):
 
         try:
             verifying_key.verify(data, msg.get_binary())
-        except nacl.exceptions.BadSignatureError:
+        except (nacl.exceptions.BadSignatureError, ValueError):
+            # ValueError: the signature blob is not exactly 64 bytes long
             return False
         else:
             return True
